@@ -36,7 +36,16 @@ func (s Sched) String() string {
 
 // chain shapes: 'e' empty block, 'x' block with unique txs, 'r' block repeating the tx list of the previous 'x'/'r'
 func buildSpec(shape string, tag string) world.ChainSpec {
+	// one chain in three starts above height 1 (a full node of a chain whose genesis names a later initial height)
 	spec := world.ChainSpec{Initial: 1}
+	if t := 0; len(tag) > 0 {
+		for _, ch := range tag {
+			t = t*31 + int(ch)
+		}
+		if t%3 == 0 {
+			spec.Initial = 5
+		}
+	}
 	var last [][]byte
 	for i, c := range shape {
 		switch c {
@@ -480,7 +489,7 @@ func Run(r *vk.Run) {
 	for ci, shape := range small {
 		p, err := world.ProduceChain(ctx, buildSpec(shape, fmt.Sprintf("s%d", ci)), keys)
 		if err != nil {
-			r.Violation("producer", "could not produce chain "+shape+": "+err.Error(), nil)
+			r.Inconclusive("the aggregator producing the reference chain failed (not this property's business): " + "could not produce chain " + shape + ": " + err.Error())
 			return
 		}
 		var evs []world.Action
@@ -511,7 +520,7 @@ func Run(r *vk.Run) {
 		shape := randShape(rng, n, false)
 		p, err := world.ProduceChain(ctx, buildSpec(shape, fmt.Sprintf("c%d", c)), keys)
 		if err != nil {
-			r.Violation("producer", "could not produce chain "+shape+": "+err.Error(), nil)
+			r.Inconclusive("the aggregator producing the reference chain failed (not this property's business): " + "could not produce chain " + shape + ": " + err.Error())
 			return
 		}
 		for k := 0; k < per; k++ {
@@ -532,7 +541,7 @@ func Run(r *vk.Run) {
 		}
 		p, err := world.ProduceChain(ctx, buildSpec(shape, fmt.Sprintf("f%d", c)), keys)
 		if err != nil {
-			r.Violation("producer", "could not produce chain "+shape+": "+err.Error(), nil)
+			r.Inconclusive("the aggregator producing the reference chain failed (not this property's business): " + "could not produce chain " + shape + ": " + err.Error())
 			return
 		}
 		for j := 0; j+2 < len(p.Heights); j++ {
@@ -578,6 +587,44 @@ func Run(r *vk.Run) {
 			}
 		}
 	}
+	// (2d) items reach the P2P stores while the node is not looking and the node is stopped (cleanly, or it crashes)
+	// before its store loops tick: after the restart the P2P stores are ahead of everything the node has consumed, and a
+	// tick must still bring in every height
+	for c := 0; c < r.N(6, 30); c++ {
+		n := 6 + rng.Intn(8)
+		shape := randShape(rng, n, false)
+		p, err := world.ProduceChain(ctx, buildSpec(shape, fmt.Sprintf("q%d", c)), keys)
+		if err != nil {
+			r.Inconclusive("the aggregator producing the reference chain failed (not this property's business): " + err.Error())
+			return
+		}
+		last := len(p.Heights) - 1
+		for rep := 0; rep < r.N(4, 10); rep++ {
+			j := rng.Intn(last)         // blocks 0..j-1 are applied normally first
+			m := j + rng.Intn(last-j+1) // then items up to m arrive unseen
+			sc := Sched{ID: id, Chain: 4000 + c, Shape: shape + "(p2p arrival, restart, tick)"}
+			id++
+			for i := 0; i < j; i++ {
+				sc.Actions = append(sc.Actions, world.Action{Kind: "ch-h", I: i})
+				if len(p.Txs[i]) > 0 {
+					sc.Actions = append(sc.Actions, world.Action{Kind: "ch-d", I: i})
+				}
+			}
+			switch rep % 3 {
+			case 0:
+				sc.Actions = append(sc.Actions, world.Action{Kind: "p2p-h+", I: m}, world.Action{Kind: "p2p-d+", I: m})
+			case 1:
+				sc.Actions = append(sc.Actions, world.Action{Kind: "p2p-h+", I: m}, world.Action{Kind: "p2p-d", I: m})
+			default:
+				sc.Actions = append(sc.Actions, world.Action{Kind: "p2p-h", I: m}, world.Action{Kind: "p2p-d+", I: m})
+			}
+			sc.Actions = append(sc.Actions, world.Action{Kind: []string{"restart", "crash-restart"}[rng.Intn(2)]}, world.Action{Kind: "p2p-tick"})
+			if m < last {
+				sc.Actions = append(sc.Actions, world.Action{Kind: "p2p-h+", I: last}, world.Action{Kind: "p2p-d+", I: last}, world.Action{Kind: "p2p-tick"})
+			}
+			jobs = append(jobs, job{p, sc, rng.Intn(2) == 0})
+		}
+	}
 	// (2c) bursty P2P delivery: the P2P stores jump by far more than a handful of heights between two ticks of the
 	// store loops (a node that was offline, or a peer that delivers in bulk)
 	for c := 0; c < r.N(2, 8); c++ {
@@ -585,7 +632,7 @@ func Run(r *vk.Run) {
 		shape := randShape(rng, n, false)
 		p, err := world.ProduceChain(ctx, buildSpec(shape, fmt.Sprintf("b%d", c)), keys)
 		if err != nil {
-			r.Violation("producer", "could not produce chain: "+err.Error(), nil)
+			r.Inconclusive("the aggregator producing the reference chain failed (not this property's business): " + "could not produce chain: " + err.Error())
 			return
 		}
 		last := len(p.Heights) - 1
@@ -606,7 +653,7 @@ func Run(r *vk.Run) {
 		shape := randShape(rng, 5+rng.Intn(6), true)
 		p, err := world.ProduceChain(ctx, buildSpec(shape, fmt.Sprintf("r%d", c)), keys)
 		if err != nil {
-			r.Violation("producer", "could not produce chain "+shape+": "+err.Error(), nil)
+			r.Inconclusive("the aggregator producing the reference chain failed (not this property's business): " + "could not produce chain " + shape + ": " + err.Error())
 			return
 		}
 		for k := 0; k < 5; k++ {
